@@ -336,6 +336,7 @@ class Prop(Check):
         "Link.C07_stored_list",
         "Link.C07_stored_single",
         "Link.C07_stored_none",
+        "Link.C07_found_iff_isinstance",
     ]
     DRIVER = "Drivers/Link.lean"
     QUICK_CASES = 800
@@ -662,7 +663,19 @@ class Prop(Check):
         classes = sorted({o["cls"] for o in objs} | {b[1] for b in case["builtins"]})
         conf = [[CLS_R if c == "R" else cls_num(c), cls_num(t)] for c in classes for t in targets_of(case)
                 if conforms(case, c, t)]
+        # the grammar as a C03 rule graph (rule numbers): Model, Elem, A0.., L0.., R (all reference rules RS*/RM* are
+        # common rules that occur as alternatives of Elem only: one rule stands for them)
+        nA, nL = len(case["abstracts"]), len(case["leaves"])
+        ridx = {"Model": 0, "Elem": 1, "R": 2 + nA + nL}
+        ridx.update({f"A{j}": 2 + j for j in range(nA)})
+        ridx.update({f"L{k}": 2 + nA + k for k in range(nL)})
+        gram = [[1, [1]], [0, [ridx[f"L{k}"] for k in range(nL)] + [ridx["R"]]]]
+        gram += [[0, [ridx[a] for a in alts]] for alts in case["abstracts"]]
+        gram += [[1, []] for _ in range(nL)] + [[1, []]]
+        objmap = [[CLS_R if c == "R" else cls_num(c), ridx.get(c, len(gram) + 7)] for c in classes]
+        tgtmap = [[cls_num(t), ridx[t]] for t in targets_of(case) if t != "OBJECT"]
         return {
+            "gram": gram, "objmap": objmap, "tgtmap": tgtmap, "object": CLS_OBJECT,
             "op": "resolve_default",
             "root": lean_obj(case),
             "conf": conf,
@@ -677,6 +690,9 @@ class Prop(Check):
         if "err" in out:
             return f"model rejected the request: {out}"
         res = out["res"]
+        if out.get("conf_diff"):
+            return (f"conformance: the table from the grammar's declared alternatives and the C03 textx_isinstance model "
+                    f"(Link.confOfGrammar) disagree on (object class, target class) {out['conf_diff'][:6]}")
         def tj(t):
             return {"obj": t["obj"]} if "obj" in t else {"builtin": t["builtin"] - 1000}
 
